@@ -40,6 +40,7 @@ def countTy (s : State) (t : WType) : Nat := (s.items.filter fun it => it.ty = t
 
 def dump (s : State) : String :=
   joinSp [ "q=" ++ showList (s.queue.map fun it => toString it.id),
+    "at=" ++ showList (s.queue.map fun it => if it.tz then "aware" else toString it.created),
     s!"ing={s.ingested}", s!"dig={s.digested}", s!"rec={s.recycled}",
     "by=" ++ showList ([WType.misfolded, .expired, .failedOp, .orphaned, .toxic].map fun t => toString (countTy s t)),
     "bin=" ++ showBin s.bin,
